@@ -204,6 +204,28 @@ def check(ctx):
     ctx.ob("R14.7", f"{k}|answers-the-counter", r0[0] == "atomic" and r0[1] == "load" and r0[2][-1:] == ("references_count",), f"{rb.f['file']}:{rb.f['line']}",
            f"answers `{show(r0)[:60]}`; required: a load of the control block's references_count")
     ctx.floor("R14.7", 5)
+    # ------------------------------------------------------------------ R14.8 the unique handle resolves to its own slot; From<OgreUnique> is into_ogre_arc
+    import delegation
+    for tr, fn in (("std::ops::Deref", "deref"), ("std::convert::AsRef", "as_ref"), ("std::borrow::Borrow", "borrow")):
+        k = f"{UNIQ} as {tr}::{fn}"
+        f_ = fx.fn_opt(k)
+        if f_ is None: continue
+        ub = Body(f_); ud = D.Dag(ub)
+        e = strip_casts(ud.local(0))
+        while e[0] in ("deref",) and isinstance(e[1], tuple): e = strip_casts(e[1])
+        ctx.ob("R14.8", f"{k}|answers-its-own-slot", e[0] in ("mem", "ref") and e[1][-1:] == ("data_ref",), f"{f_['file']}:{f_['line']}", f"returns `{show(ud.local(0))[:60]}`; required: self.data_ref")
+    kb = Body(fx.fn(f"{UNIQ}::from_allocated_id")); kd = D.Dag(kb)
+    far = [(b, c) for (b, c) in kb.calls if c.get("fname") == "from_allocated_ref"]
+    ok = len(far) == 1
+    if ok:
+        e = strip_casts(kd.expr(far[0][1]["args"][0]))
+        while e[0] in ("ref", "deref") and isinstance(e[1], tuple): e = strip_casts(e[1])
+        ok = e[0] == "call" and e[1].endswith("ref_from_id") and strip_casts(e[2][-1])[:2] == ("param", 1)
+    ctx.ob("R14.8", f"{UNIQ}::from_allocated_id|wraps-ref_from_id-of-its-id", ok, f"{kb.f['file']}:{kb.f['line']}", "from_allocated_id(id) wraps allocator.ref_from_id(id)")
+    kfr = [k_ for k_ in fx.by_key if k_.startswith(ARC + " as std::convert::From") and k_.endswith("::from")]
+    for k_ in kfr:
+        delegation.thin(ctx, "R14.8", k_, "into_ogre_arc", "converting with From is the same transfer as into_ogre_arc")
+    ctx.floor("R14.8", 4)
     ctx.floor("R14.2", 6); ctx.floor("R14.3", 5); ctx.floor("R14.4", 5); ctx.floor("R14.5", 5)
 
 
